@@ -432,10 +432,10 @@ def shared_factor_cases(rng, skels2, skels3, thorough, rows=6):
                 pairs += [(f, r), (r, f)]
             pairs += [(mixed[0], reduced[0]), (full[0], mixed[0]), (reduced[3], full[1]), (mixed[1], reduced[1])]
             if var == "B" and not thorough:
-                pairs = pairs[:2]
+                pairs = pairs[:1] if CONTRASTS.index(contrast) % 2 else pairs[1:2]
             for node in skels2:
                 for pi, (p1, p2) in enumerate(pairs):
-                    if not thorough and (n + pi) % 3 and pi >= 2:
+                    if not thorough and (n + pi) % 4 and pi >= 2:
                         continue  # quick: the two plain orders always, the other combinations rotate
                     masks = []
                     for c in cols:
